@@ -492,6 +492,7 @@ def run(ck):
                    "lib/c04gen.py: the generator of the library, of both callers and of the Rust-name expectation (rust_mangle transcribed by hand)",
                    "modelled, not verified: the actual parameter passing (exercised by the linked executables on the host only); C++ manglings are opaque strings to the model; "
                    "cross-target checks compare symbols, they execute nothing"]
+    ck.coverage["rule"] += "; C++: generated classes (namespaces, several constructors, destructors, const / non-const / static member functions, overloads, reference and pointer parameters) called from C++ and through the bindings, identical transcripts, with and without --enable-cxx-namespaces"
     vlib.coq_check_properties(ck, "theories/C04/Properties.v")
     vlib.build_harness()
     bindgen = vlib.build_cli()
@@ -502,6 +503,7 @@ def run(ck):
         mangle_oracles(ck, tmp)
         host_libs(ck, bindgen, tmp, quick)
         cross_symbols(ck, bindgen, tmp, quick)
+        cpp_classes(ck, bindgen, tmp, quick)
         fixed_cases(ck, bindgen, tmp)
     finally:
         shutil.rmtree(tmp, ignore_errors=True)
@@ -644,6 +646,8 @@ def cross_symbols(ck, bindgen, tmp, quick):
             conv = rr.choice(["", "", "__attribute__((stdcall)) ", "__attribute__((fastcall)) "]) if x86_32 and "windows" in t else ""
             nargs = rr.choice([0, 1, 2, 3])
             asm = rr.choice([None, None, None, "_" + re.sub(r"\W", "x", n), re.sub(r"\W", "x", n) + "_x"]) if not conv else None
+            if asm == c04gen.rust_name(n):
+                asm = None        # a label equal to the Rust name on a prefixed target is the documented corner (fixed case below)
             h += "%sint %s(%s)%s;\n" % (conv, n, ", ".join("int a%d" % i for i in range(nargs)) or "void", (' __asm__("%s")' % asm) if asm else "")
             calls += "%s(%s); " % (c04gen.rust_name(n), ", ".join("0" for _ in range(nargs)))
         gl = rr.sample(["gv", "type_g", "g$v", "_gv", "static_"], 3)
@@ -686,8 +690,15 @@ def cross_symbols(ck, bindgen, tmp, quick):
         rund = {s for s in res["rund"] if s not in ignore}
         cdef = set(res["cdef"])
         missing = sorted(rund - cdef)
+        decls = parse_decls(res["bindings"])
+        # the documented corner: on a prefixed target a declaration whose Rust name equals its (already prefixed / labelled) C symbol gets
+        # no link_name, so rustc prefixes it once more (`int _(void);` -> Rust `__` == symbol `__` -> `___`)
+        corner = [s for s in missing if s.startswith("_") and s[1:] in decls and decls[s[1:]]["link"] is None and s[1:] in cdef]
+        if corner:
+            ck.violation("C04-prefixed-target-rust-name-equals-symbol", "on a prefixing target a declaration whose Rust name equals its C symbol is bound without link_name, so rustc references `_` + name "
+                         "(C04/Properties.v equal_on_prefixed_refuted)", dict(base, referenced_but_undefined=corner, c_defines=sorted(cdef)))
+            missing = [s for s in missing if s not in corner]
         if missing:
-            decls = parse_decls(res["bindings"])
             which = [n for n, dcl in decls.items() if any(n.strip("_") in s or (dcl["link"] or "").strip("\x01") == s for s in missing)]
             ck.violation("C04-cross-unbound-symbol:%s" % mode, "on a cross target the compiled bindings reference a symbol the compiled C does not define",
                          dict(base, referenced_but_undefined=missing, c_defines=sorted(cdef), declarations={n: decls[n]["attrs"].strip() for n in which[:6]}))
@@ -700,6 +711,71 @@ def cross_symbols(ck, bindgen, tmp, quick):
         raise TieBroken("cross-targets", "only %d cross-target runs could be compiled: %s" % (done, ck.notes.get("cross_skipped")))
     judge_dump_ties(ck, "c04_cross", bodies, metas)
     ck.notes["cross_target_runs"] = done
+
+
+def cpp_classes(ck, bindgen, tmp, quick):
+    """C++ member functions, static member functions, constructors and destructors: called from C++ and through the bindings"""
+    r = ck.rng
+    jobs = [(i, r.getrandbits(40), r.choice([1, 2, 3]), i % 2 == 1) for i in range(6 if quick else 120)]
+
+    def one(j):
+        i, seed, ncls, nsmode = j
+        lib = c04gen.CppLib(random.Random(seed), ncls, nsmode)
+        d = os.path.join(tmp, "cpp%d" % i)
+        os.makedirs(d)
+        hdr, libcpp = lib.header(), lib.lib_cpp()
+        cmain, rmain = lib.callers()
+        for n, t in (("lib.hpp", hdr), ("lib.cpp", libcpp), ("cmain.cpp", cmain), ("main.rs", rmain)):
+            open(os.path.join(d, n), "w").write(t)
+        res = {"header": hdr, "nsmode": nsmode}
+        cxx = ["clang++", "-std=c++14", "-fno-exceptions", "-fno-rtti", "-w"]
+        rc, o, e = sh2(cxx + ["-c", "-o", "lib.o", "lib.cpp"], cwd=d, timeout=120)
+        if rc != 0:
+            res["gen_error"] = "lib.cpp: " + e[-1200:]
+            return j, res
+        rc, o, e = sh2(cxx + ["-o", "cmain", "cmain.cpp", "lib.o"], cwd=d, timeout=120)
+        if rc != 0:
+            res["gen_error"] = "cmain.cpp: " + e[-1200:]
+            return j, res
+        rc, o, e = sh2(["./cmain"], cwd=d, timeout=60)
+        res["c_out"] = o
+        fl = ["--no-layout-tests"] + (["--enable-cxx-namespaces"] if nsmode else [])
+        rc, out, err = sh2([bindgen, os.path.join(d, "lib.hpp")] + fl + ["--", "-x", "c++", "-std=c++14"], cwd=d, timeout=120)
+        res["flags"], res["rc"], res["bindings"], res["err"] = fl, rc, out, err
+        if rc != 0:
+            return j, res
+        open(os.path.join(d, "bindings.rs"), "w").write(out)
+        rc, o2, e2 = sh2(["rustc", "--edition", "2021", "-A", "warnings", "-C", "link-arg=lib.o", "-o", "rmain", "main.rs"], cwd=d, timeout=600)
+        res["rustc_rc"], res["rustc_err"] = rc, e2
+        if rc == 0:
+            rc, o3, e3 = sh2(["./rmain"], cwd=d, timeout=60)
+            res["r_out"], res["r_rc"] = o3, rc
+        return j, res
+    with ThreadPoolExecutor(max_workers=vlib.NCPU) as ex:
+        results = list(ex.map(one, jobs))
+    lines = 0
+    for (i, seed, ncls, nsmode), res in results:
+        ck.evaluations += 1
+        if "gen_error" in res:
+            raise TieBroken("c04gen-cpp", res["gen_error"] + "\n" + res["header"][:1500])
+        base = {"seed": seed, "header": res["header"][:5000], "flags": res["flags"] + ["--", "-x", "c++"]}
+        ck.nontrivial.add(res["header"] + str(nsmode))
+        if res["rc"] != 0:
+            ck.violation("C04-bindgen-failed", "bindgen fails on a generated C++ class header", dict(base, stderr=res["err"][-500:]))
+            continue
+        if res["rustc_rc"] != 0:
+            code = re.search(r"error\[(E\d+)\]", res["rustc_err"])
+            und = re.findall(r"undefined (?:reference to|symbol:?) [`']?([^\s'`]+)", res["rustc_err"])
+            ck.violation("C04-cpp-caller-does-not-build:%s" % (code.group(1) if code else ("link" if und else "other")), "the Rust caller of generated C++ member functions does not compile or link",
+                         dict(base, rustc=re.findall(r"^error(?:\[E\d+\])?: .*$", res["rustc_err"], re.M)[:3], undefined=und[:5], stderr=res["rustc_err"][-900:]))
+            continue
+        co, ro = res["c_out"].splitlines(), res["r_out"].splitlines()
+        lines += len(co)
+        if co != ro:
+            k = next((q for q, (a, b) in enumerate(zip(co, ro)) if a != b), min(len(co), len(ro)))
+            ck.violation("C04-cpp-call-mismatch", "calling C++ member functions / constructors through the bindings does not behave like calling them from C++",
+                         dict(base, first_difference={"cpp": co[k] if k < len(co) else "(ends)", "rust": ro[k] if k < len(ro) else "(ends)"}, exit=res.get("r_rc")))
+    ck.notes["cpp_transcript_lines_compared"] = lines
 
 
 def fixed_cases(ck, bindgen, tmp):
@@ -722,7 +798,7 @@ def fixed_cases(ck, bindgen, tmp):
     decls = parse_decls(out)
     ck.evaluations += 1
     if rc == 0 and (decls.get("foo") or {}).get("link") is None:
-        ck.violation("C04-prefixed-target-asm-label-equals-name", "on a Mach-O target `int foo(int) __asm__(\"foo\")` (symbol `foo`) is bound without link_name, so rustc references `_foo` "
+        ck.violation("C04-prefixed-target-rust-name-equals-symbol", "on a Mach-O target `int foo(int) __asm__(\"foo\")` (symbol `foo`) is bound without link_name, so rustc references `_foo` "
                      "(C04/Properties.v equal_on_prefixed_refuted)", {"header": 'int foo(int) __asm__("foo");', "flags": ["--", "--target=x86_64-apple-darwin"], "emitted": out[-300:]})
     # corner 2: distrusted mangling + renamed item on a prefixed target
     open(os.path.join(d, "kw.h"), "w").write("int type(int);\n")
